@@ -12,6 +12,8 @@ PRELUDE = '''package {pkg}
 import (
 	"errors"
 	"unsafe"
+
+	"github.com/google/wire"
 )
 
 type T struct {{
@@ -28,6 +30,26 @@ func (T) M() {{}}
 type G[A any] struct{{ V A }}
 
 type F func() int
+
+type D struct {{
+	A, B string
+	C    int
+}}
+
+type BL struct {{
+	_ struct{{}}
+	X int
+	_ int
+}}
+
+type E struct {{
+	T
+	N int64
+}}
+
+type PS = wire.ProviderSet
+
+type holder struct{{ S wire.ProviderSet }}
 
 var (
 	_ = errors.New
@@ -86,6 +108,31 @@ def spellings():
             args = first + (", " + fields if fields else "")
             res = "G[int]" if "G[int]" in first else ("struct{ X int }" if "struct{" in first else "T")
             add("struct/%d/%d" % (k, j), inj("Init", res, "%s.Build(%s.Struct(%s), NewInt, NewStr)" % (W, W, args)))
+    # --- struct shapes: same-typed fields, blank fields, embedded fields
+    for k, (ty, fields) in enumerate([("D", '"*"'), ("D", '"A", "B"'), ("D", '"A", "C"'), ("D", '"A", "A"'), ("D", '"C", "B", "A"'),
+                                      ("BL", '"*"'), ("BL", '"_"'), ("BL", '"X"'), ("BL", '"X", "_"'),
+                                      ("E", '"*"'), ("E", '"T"'), ("E", '"N"'), ("E", '"X"'), ("E", '"T", "N"')]):
+        add("shape-struct/%d" % k, inj("Init", ty, "wire.Build(wire.Struct(new(%s), %s), NewInt, NewStr, NewT, wire.Value(int64(1)), "
+                                                   "wire.Value(struct{}{}))" % (ty, fields)))
+        add("shape-structptr/%d" % k, inj("Init", "*" + ty, "wire.Build(wire.Struct(new(%s), %s), NewInt, NewStr, NewT, wire.Value(int64(1)), "
+                                                            "wire.Value(struct{}{}))" % (ty, fields)))
+    for k, (ty, fields, res) in enumerate([("D", '"A"', "string"), ("D", '"A", "B"', "string"), ("D", '"C"', "int"), ("BL", '"_"', "int"),
+                                           ("BL", '"X"', "int"), ("E", '"T"', "T"), ("E", '"N"', "int64"), ("E", '"X"', "int"), ("E", '"*"', "int64")]):
+        add("shape-fieldsof/%d" % k, "func mk%s() %s { var z %s; return z }\n\n" % (ty, ty, ty)
+            + inj("Init", res, "wire.Build(mk%s, wire.FieldsOf(new(%s), %s))" % (ty, ty, fields)))
+    # --- package-level variables of type wire.ProviderSet with unusual values, unused and used
+    for k, init in enumerate(["wire.ProviderSet{}", "PS{}", "*new(wire.ProviderSet)", "mkSet()", "wire.ProviderSet(Base)", "(wire.NewSet(NewInt))",
+                              "func() wire.ProviderSet { return wire.NewSet(NewInt) }()", "[]wire.ProviderSet{wire.NewSet(NewInt)}[0]",
+                              "map[int]wire.ProviderSet{}[0]", "holder{}.S", "(Base)", "*&Base", "PS(wire.NewSet(NewInt))"]):
+        decl = "func mkSet() wire.ProviderSet { return wire.NewSet(NewInt) }\n\nvar Base = wire.NewSet(NewInt)\n\nvar Odd = %s\n\n" % init
+        add("setvar/unused/%d" % k, decl + inj("Init", "int", "wire.Build(NewInt)"))
+        add("setvar/used/%d" % k, decl + inj("Init", "int", "wire.Build(Odd)"))
+        add("setvar/nested/%d" % k, decl + "var Outer = wire.NewSet(Odd)\n\n" + inj("Init", "int", "wire.Build(Outer)"))
+    add("setvar/typed-novalue", "var Odd PS\n\n" + inj("Init", "int", "wire.Build(NewInt)"))
+    add("setvar/alias-type-only", "type PS2 = wire.ProviderSet\n\n" + inj("Init", "int", "wire.Build(NewInt)"))
+    add("setvar/defined-type", "type MySet wire.ProviderSet\n\nvar Odd = MySet(wire.NewSet(NewInt))\n\n" + inj("Init", "int", "wire.Build(NewInt)"))
+    add("setvar/pointer", "var Base = wire.NewSet(NewInt)\n\nvar Odd = &Base\n\n" + inj("Init", "int", "wire.Build(NewInt)"))
+    add("setvar/const-like", "var Odd, Even = wire.NewSet(NewInt), wire.ProviderSet{}\n\n" + inj("Init", "int", "wire.Build(Odd)"))
     # --- wire.FieldsOf
     for k, first in enumerate(["new(T)", "new(*T)", "new(*int)", "new(int)", "&T{}", "new(**T)", "nil", "ptrVar", "new(PT)", "new(G[int])",
                                "new(*G[int])", "new(struct{ X int })", "new(I)"]):
@@ -180,10 +227,11 @@ def run_c20(rep, tier, known):
         stats["type_correct"] = len(good)
         gens = ws.wire_many([["gen", "./" + p] for p, _, _ in good], timeout=60)
         checks = ws.wire_many([["check", "./" + p] for p, _, _ in good], timeout=60)
-        for (p, label, body), (rc, out, err), (rc2, out2, err2) in zip(good, gens, checks):
+        shows = ws.wire_many([["show", "./" + p] for p, _, _ in good], timeout=60)
+        for (p, label, body), (rc, out, err), (rc2, out2, err2), (rc3, out3, err3) in zip(good, gens, checks, shows):
             rep.evaluations += 1
             why = []
-            for cmd, c, e in (("gen", rc, err), ("check", rc2, err2)):
+            for cmd, c, e in (("gen", rc, err), ("check", rc2, err2), ("show", rc3, err3)):
                 if panicked(e) or c not in (0, 1):
                     stats["panics"] += 1
                     site = re.search(r"(internal/wire/\w+\.go:\d+|cmd/wire/\w+\.go:\d+)", e)
@@ -199,7 +247,7 @@ def run_c20(rep, tier, known):
             if len(rep.coverage["samples"]) < 5:
                 rep.sample({"spelling": label, "source": body[:200], "gen_exit": rc, "stderr": err.strip()[:200]})
             if why:
-                fails.append({"stream": "c20", "spelling": label, "why": why, "source": body, "stderr": (err + err2)[-1500:]})
+                fails.append({"stream": "c20", "spelling": label, "why": why, "source": body, "stderr": (err + err2 + err3)[-1500:]})
     finally:
         ws.close()
     rep.coverage["c20"] = stats
